@@ -37,21 +37,21 @@ func compileScopePkg(path string) bool {
 
 // builder-state types: writing them during a map iteration makes the compiled system depend on iteration order
 var stateTypeNames = map[string]bool{
-	"github.com/consensys/gnark/constraint.System":                   true,
-	"github.com/consensys/gnark/constraint/<curve>.system":           true,
-	"github.com/consensys/gnark/constraint/<field>.system":           true,
-	"github.com/consensys/gnark/constraint/<curve>.CoeffTable":       true,
-	"github.com/consensys/gnark/constraint/<field>.CoeffTable":       true,
-	"github.com/consensys/gnark/frontend/cs.CoeffTable":              true,
-	"github.com/consensys/gnark/frontend/cs/r1cs.builder":            true,
-	"github.com/consensys/gnark/frontend/cs/scs.builder":             true,
-	"github.com/consensys/gnark/internal/kvstore.genericStore":       true,
-	"github.com/consensys/gnark/constraint.DebugInfo":                true,
-	"github.com/consensys/gnark/internal/circuitdefer.deferKey":      false,
-	"github.com/consensys/gnark/std/multicommit.multicommitter":      true,
-	"github.com/consensys/gnark/std/rangecheck.commitChecker":        true,
-	"github.com/consensys/gnark/std/math/emulated.Field":             true,
-	"github.com/consensys/gnark/std/lookup/logderivlookup.Table":     true,
+	"github.com/consensys/gnark/constraint.System":                        true,
+	"github.com/consensys/gnark/constraint/<curve>.system":                true,
+	"github.com/consensys/gnark/constraint/<field>.system":                true,
+	"github.com/consensys/gnark/constraint/<curve>.CoeffTable":            true,
+	"github.com/consensys/gnark/constraint/<field>.CoeffTable":            true,
+	"github.com/consensys/gnark/frontend/cs.CoeffTable":                   true,
+	"github.com/consensys/gnark/frontend/cs/r1cs.builder":                 true,
+	"github.com/consensys/gnark/frontend/cs/scs.builder":                  true,
+	"github.com/consensys/gnark/internal/kvstore.genericStore":            true,
+	"github.com/consensys/gnark/constraint.DebugInfo":                     true,
+	"github.com/consensys/gnark/internal/circuitdefer.deferKey":           false,
+	"github.com/consensys/gnark/std/multicommit.multicommitter":           true,
+	"github.com/consensys/gnark/std/rangecheck.commitChecker":             true,
+	"github.com/consensys/gnark/std/math/emulated.Field":                  true,
+	"github.com/consensys/gnark/std/lookup/logderivlookup.Table":          true,
 	"github.com/consensys/gnark/std/internal/logderivprecomp.Precomputed": true,
 }
 
